@@ -11,6 +11,14 @@ Briefs land in /tmp/seedbrief/<ID>-<letter>.md, worktrees are /tmp/<round tag>-<
 import json, sys, os, glob, collections
 
 KINDS = {
+ "free": """Your choice.  Assume the property is guarded by a strong generated-input test suite written by someone
+who knows the property text but not your change.  Pick the kind of change you judge HARDEST for such a
+suite to notice while still being a clear, demonstrable violation of the property as written: think of
+what a generator is unlikely to produce (a particular relation between several parameters, a particular
+sequence, a structure of a particular size, an input at an exact boundary, a rarely used but documented
+feature), or of what an oracle is unlikely to compare (an absolute value where only relations are
+usually checked, an output element usually ignored, a count, an error kind).  Say in meta.json why you
+think it is hard to notice.""",
  "conjunction": """The violation must need a CONJUNCTION of at least three independent conditions to manifest
 (for example: a particular option of the operator x one direction x one container kind or context
 kind or ellipsoid class or kind of neighbouring step), such that any two of them together are
